@@ -558,7 +558,8 @@ func ruleC07CauseFlow(cx *Ctx) {
 			if !ok || boundMethod(mc) != origin(ev) {
 				return
 			}
-			for _, u := range usesOf(mc) {
+			for _, uc := range usesThroughConv(mc) {
+				u := uc.use
 				c := calleeOf(u)
 				cx.R.Check(c != nil && allowed[funcName(c)], rule, funcName(fn), "callback handed to", cx.P.where(u), "the eviction callback is handed only to the eviction policy's handlers and the timer wheel sweep ("+describeCallee2(u)+")")
 				// the policy handlers are reached only under withEviction, the wheel only under withExpiration
